@@ -20,7 +20,6 @@ type cOrdGhost struct {
 	live   bool
 }
 
-
 // the ghost per origin follows the documented replace rule
 func cOrdStep(g *[3]cOrdGhost, o, hop int, metric uint16, seq uint64, ok bool, tag string) {
 	want := !g[o].live || seq > g[o].seq || (seq == g[o].seq && metric < g[o].metric)
